@@ -5,7 +5,8 @@ export GOFLAGS=-mod=mod GOPROXY=off GOSUMDB=off GOTOOLCHAIN=local
 S=$1; C=$2; T=${3:-quick}; SEED=${4:-1}
 WT=/tmp/try-$S-$C-$$
 git -C /repo worktree prune; git -C /repo worktree add -q --detach $WT || exit 2
-(cd $WT && git apply /verif/seeded/$S/patch.diff) || { git -C /repo worktree remove --force $WT; exit 2; }
+P=/verif/seeded/$S/patch.diff; [ -f /verif/seeded/$S/patch.rebased.diff ] && P=/verif/seeded/$S/patch.rebased.diff
+(cd $WT && git apply $P) || { git -C /repo worktree remove --force $WT; exit 2; }
 rm -rf /verif/replays/$C/found
 out=$(cd /verif && VERIF_SEED=$SEED VERIF_REPO=$WT ./check $C $T 2>&1); code=$?
 echo "$out" | grep -E "^VIOLATION|sig=|$T seed|INCONCL|KNOWN" | cut -c1-400 | head -${LINES_MAX:-12}
